@@ -782,3 +782,4 @@ def check(run, replay=None):
 
 # workloads added in seeding rounds 7-10 (DESIGN.md sections 13.9-13.12)
 LEVEL_TEXT = LEVEL_TEXT + ' Later additions: scripts/peaksearch.py with the frame angle under a motor name (alone or next to a stale Omega key), both drivers.'
+LEVEL_TEXT = LEVEL_TEXT + ' Round 11: labelimage objects driven by several Python threads at the same time (each output equals the one written alone).'
